@@ -182,4 +182,18 @@ def walk (t : Tree) (all : Bool) : Nat → List Bytes → Bytes → Bytes → Li
             (out ++ o2, s2)
         | _ => (out, seen)) ([(shown, real)], seen)
 
+/-- the targets of the directory links of a tree (with repetitions) -/
+def targets (t : Tree) : List Bytes :=
+  t.filterMap fun n => match n.kind with | .linkDir tg => some tg | _ => none
+
+/-- the longest path or link target of a tree, in bytes -/
+def maxLen (t : Tree) : Nat :=
+  (t.map fun n => max n.path.length (match n.kind with | .linkDir tg => tg.length | _ => 0)).foldl max 0
+
+/-- a recursion depth the walk never exceeds (GfsProofs.WalkTerm: with more fuel than this the
+    result no longer depends on the fuel — the cycle cache makes the walk of ANY tree, cyclic and
+    aliased links included, terminate): every nested call either descends to a longer real path
+    or follows a link whose target was not yet recorded -/
+def walkBound (t : Tree) : Nat := ((targets t).length + 1) * (maxLen t + 2)
+
 end Gfs.Seqls
